@@ -26,6 +26,9 @@ Definition expected_wrappers : list (string * string * list string) :=
 
 Definition expected_mem_sites : list (string * string * list string) :=
 %s
-''' % (grab('skeletons'), grab('wrappers'), grab('mem_sites'))
+
+Definition expected_branches : list (string * string * list string) :=
+%s
+''' % (grab('skeletons'), grab('wrappers'), grab('mem_sites'), grab('branches'))
 open(os.path.join(root, 'coq', 'theories', 'Skeleton.v'), 'w').write(out)
 print('Skeleton.v written')
